@@ -217,12 +217,13 @@ theorem entitiesPass_ok (cfg : DocCfg) (recs : List Rec) (gs : List (Rec × List
 
 theorem objectsPass_ok (cfg : DocCfg) (recs : List Rec) (appended : List Tag)
     (hwf : ∀ r ∈ recs, isUnknown r = true → entityWF cfg.alive r = true) :
-    objectsPass cfg recs appended = .ok (recs.flatMap (fun r => written cfg (r, [])) ++ appended) := by
+    objectsPass cfg recs appended
+      = .ok ((recs.filter (fun r => !cfg.skipObject r)).flatMap (fun r => written cfg (r, [])) ++ appended) := by
   simp only [objectsPass]
   rw [writeGroups_ok cfg _ (by
     intro g hg hu
     obtain ⟨r, hr, rfl⟩ := List.mem_map.mp hg
-    exact hwf r hr hu)]
+    exact hwf r (List.mem_filter.mp hr).1 hu)]
   simp only [List.flatMap_map]
 
 /-! ## whole file -/
@@ -410,7 +411,7 @@ theorem dictSet_keys {β : Type} (d : List (V × β)) (k : V) (v : β) (h : (d.m
     obtain ⟨p, hp, e⟩ := List.mem_map.mp ha
     exact ⟨p, hp, e⟩
 
-theorem headerVars_keys (gs acc : List (V × V)) (h : (acc.map (·.1)).Nodup) : ((headerVars gs acc).map (·.1)).Nodup := by
+theorem headerVars_keys {β : Type} (gs acc : List (V × β)) (h : (acc.map (·.1)).Nodup) : ((headerVars gs acc).map (·.1)).Nodup := by
   induction gs generalizing acc with
   | nil => exact h
   | cons g r ih =>
@@ -418,6 +419,30 @@ theorem headerVars_keys (gs acc : List (V × V)) (h : (acc.map (·.1)).Nodup) : 
     split
     · exact ih acc h
     · exact ih _ (dictSet_keys acc g.1 g.2 h)
+
+theorem castGroup_name (ver : Nat) (cast : Nat → Tag → Option V) (p : V × Tag) (q : V × V)
+    (h : castGroup ver cast p = some q) : q.1 = p.1 := by
+  simp only [castGroup] at h
+  split at h
+  · simp only [Option.some.injEq] at h; subst h; rfl
+  · split at h
+    · simp only [Option.some.injEq] at h; subst h; rfl
+    · cases h
+
+theorem castVars_keys (ver : Nat) (cast : Nat → Tag → Option V) (vars : List (V × Tag)) (h : (vars.map (·.1)).Nodup) :
+    ((vars.filterMap (castGroup ver cast)).map (·.1)).Nodup := by
+  have hsub : ((vars.filterMap (castGroup ver cast)).map (·.1)).Sublist (vars.map (·.1)) := by
+    induction vars with
+    | nil => exact List.Sublist.refl _
+    | cons p r ih =>
+      simp only [List.map_cons, List.nodup_cons] at h
+      simp only [List.filterMap_cons]
+      cases hc : castGroup ver cast p with
+      | none => exact (ih h.2).cons _
+      | some q =>
+        simp only [List.map_cons, castGroup_name ver cast p q hc]
+        exact (ih h.2).cons_cons _
+  exact hsub.nodup h
 
 /-- the selection step of `header_vars_by_priority` -/
 def pick (ver : Nat) (p : V × V) : Option (VarDef × V) :=
@@ -785,7 +810,7 @@ theorem headerExtra_file (secs : List Sec) :
 theorem loadSaveFile_ok (cfg : DocCfg) (bc : BlockCfg) (order : List V) (orphan : V → List Tag) (ver : Nat) (verText : V)
     (extra : List ClassE) (other : SectionPart → List Tag) (appended : List Tag) (secs : List Sec)
     (hwf : ∀ s ∈ secs, secWF s = true) (hn : (secs.map (fun s => s.name)).Nodup)
-    (groups : List (V × V)) (hh : (headerOf secs).bind headerGroupsOf = some groups)
+    (groups : List (V × Tag)) (hh : (headerOf secs).bind headerGroupsOf = some groups)
     (es : List StdClass) (hc : bodyOf secs sCLASSES = es.map (fun c => c.record (decide (1018 ≤ ver))))
     (hk : (es.map (fun c => (c.name, c.cpp))).Nodup)
     (hA : ∀ r ∈ bodyOf secs sACDSDATA, acdsRecWF r = true)
@@ -796,17 +821,18 @@ theorem loadSaveFile_ok (cfg : DocCfg) (bc : BlockCfg) (order : List V) (orphan 
     (hE : ∀ r ∈ bodyOf secs sENTITIES, isUnknown r = true → entityWF cfg.alive r = true)
     (hO : ∀ r ∈ bodyOf secs sOBJECTS, isUnknown r = true → entityWF cfg.alive r = true) :
     loadSaveFile cfg bc order orphan ver verText extra other appended (fileOf secs) = .ok
-      ((secHead sHEADER ++ headerTagsOf ver (headerPass ver verText groups) ++ [endsecTag])
+      ((secHead sHEADER ++ headerTagsOf ver (headerPass ver verText cfg.castHeader groups) ++ [endsecTag])
         ++ (secHead sCLASSES ++ (es.flatMap (fun c => c.record (decide (1018 ≤ ver)))
               ++ classesTail (decide (1018 ≤ ver)) es extra) ++ [endsecTag])
         ++ other .tables
         ++ (secHead sBLOCKS ++ order.flatMap (blockWritten cfg bc orphan bs) ++ [endsecTag])
         ++ (secHead sENTITIES ++ ((gs.filter (fun g => !pspOf cfg g)).flatMap (written cfg)
               ++ (gs.filter (fun g => pspOf cfg g)).flatMap (written cfg)) ++ [endsecTag])
-        ++ (secHead sOBJECTS ++ ((bodyOf secs sOBJECTS).flatMap (fun r => written cfg (r, [])) ++ appended) ++ [endsecTag])
+        ++ (secHead sOBJECTS ++ (((bodyOf secs sOBJECTS).filter (fun r => !cfg.skipObject r)).flatMap
+              (fun r => written cfg (r, [])) ++ appended) ++ [endsecTag])
         ++ acdsWritten secs ++ (secs.filter unmanaged).flatMap Sec.tags ++ [eofTag]) := by
-  have hhd : (headerExtra (secs.map (fun s => (V.str s.name, s.head :: s.body)))).bind (headerSectionPass ver verText)
-      = some (secHead sHEADER ++ headerTagsOf ver (headerPass ver verText groups) ++ [endsecTag]) := by
+  have hhd : (headerExtra (secs.map (fun s => (V.str s.name, s.head :: s.body)))).bind (headerSectionPass ver verText cfg.castHeader)
+      = some (secHead sHEADER ++ headerTagsOf ver (headerPass ver verText cfg.castHeader groups) ++ [endsecTag]) := by
     rw [headerExtra_file]
     cases hx : headerOf secs with
     | none => rw [hx] at hh; cases hh
@@ -992,12 +1018,11 @@ theorem unknownPsp_spec (cfg : DocCfg) (r : Rec) (h : entityWF cfg.alive r = tru
 def entryTags (c : Nat) (es : List (V × V)) : List Tag := es.flatMap (fun p => [⟨3, p.1⟩, ⟨c, p.2⟩])
 
 theorem dictFold_entries (c : Nat) (hc : c = 350 ∨ c = 360) (es d : List (V × V)) (c0 : Nat)
-    (hk : (d.map (·.1) ++ es.map (·.1)).Nodup) (ht : ∀ p ∈ es, truthy p.1 = true ∧ truthy p.2 = true) :
+    (hk : (d.map (·.1) ++ es.map (·.1)).Nodup) :
     (entryTags c es).foldl dictStep ⟨d, none, none, c0⟩ = ⟨d ++ es, none, none, if es = [] then c0 else c⟩ := by
   induction es generalizing d c0 with
   | nil => simp [entryTags]
   | cons p r ih =>
-    obtain ⟨t1, t2⟩ := ht p List.mem_cons_self
     have hfresh : p.1 ∉ d.map (·.1) := by
       intro hm
       rw [List.nodup_append] at hk
@@ -1007,17 +1032,15 @@ theorem dictFold_entries (c : Nat) (hc : c = 350 ∨ c = 360) (es d : List (V ×
     have s1 : dictStep ⟨d, none, none, c0⟩ ⟨3, p.1⟩ = ⟨d, none, some p.1, c0⟩ := by
       simp [dictStep]
     have s2 : dictStep ⟨d, none, some p.1, c0⟩ ⟨c, p.2⟩ = ⟨d ++ [(p.1, p.2)], none, none, c⟩ := by
-      simp only [dictStep, ec, if_true, t1, t2, Bool.and_self, dictSet_fresh d p.1 p.2 hfresh]
+      simp only [dictStep, ec, if_true, dictSet_fresh d p.1 p.2 hfresh]
     rw [s1, s2]
     have := ih (d ++ [(p.1, p.2)]) c (by simpa [List.append_assoc] using hk)
-      (fun q hq => ht q (List.mem_cons_of_mem _ hq))
     simp only [entryTags] at this
     rw [this]
     simp
 
 theorem dictionary_entries_ok (c : Nat) (hc : c = 350 ∨ c = 360) (es : List (V × V)) (pre : List Tag)
-    (hpre : ∀ t ∈ pre, t.code = 280 ∨ t.code = 281) (hk : (es.map (·.1)).Nodup)
-    (ht : ∀ p ∈ es, truthy p.1 = true ∧ truthy p.2 = true) :
+    (hpre : ∀ t ∈ pre, t.code = 280 ∨ t.code = 281) (hk : (es.map (·.1)).Nodup) :
     dictExport (dictLoad (pre ++ entryTags c es)) = entryTags c es := by
   have hf1 : pre.filter (fun t => t.code != 280 && t.code != 281) = [] := by
     rw [List.filter_eq_nil_iff]
@@ -1033,7 +1056,7 @@ theorem dictionary_entries_ok (c : Nat) (hc : c = 350 ∨ c = 360) (es : List (V
     · rfl
     · rcases hc with rfl | rfl <;> rfl
   simp only [dictLoad, List.filter_append, hf1, hf2, List.nil_append]
-  rw [dictFold_entries c hc es [] 350 (by simpa using hk) ht]
+  rw [dictFold_entries c hc es [] 350 (by simpa using hk)]
   cases es with
   | nil => rfl
   | cons p r => simp [dictExport, entryTags]
@@ -1050,7 +1073,9 @@ def exCfg : DocCfg :=
     known := fun r ch => r ++ ch.flatten
     knownPsp := fun r => r.any (fun t => t.code == 67 && t.val == S "1")
     attribsFollow := fun r => r.any (fun t => t.code == 66 && t.val != S "0")
-    msp := S "1F", psp := S "20" }
+    msp := S "1F", psp := S "20"
+    skipObject := fun _ => false
+    castHeader := fun _ t => some t.val }
 
 def insertRec : Rec := [T 0 "INSERT", T 5 "B1", T 330 "1F", T 66 "1", T 2 "BLK"]
 def attribRec : Rec := [T 0 "ATTRIB", T 5 "B2", T 330 "B1", T 1 "text"]
@@ -1107,15 +1132,20 @@ def exFileOut : List Tag :=
     ++ [T 0 "SECTION", T 2 "FOO", T 0 "BAR", T 1 "payload", endsecTag, eofTag]
 
 
-def exHeader : List (V × V) :=
-  [(S "$ACADVER", S "AC1015"), (S "$ACMEVAR", S "1"), (S "$CUSTOMPROPERTYTAG", S "K"), (S "$CUSTOMPROPERTY", S "v"),
-   (S "$HANDSEED", S "FF"), (S "$DWGCODEPAGE", S "ANSI_1252"), (S "$FINGERPRINTGUID", S "{x}")]
+/-- the value conversion of the examples: the text "bad" cannot be converted -/
+def exCast : Nat → Tag → Option V := fun _ t => if t.val == S "bad" then none else some t.val
+
+def exHeader : List (V × Tag) :=
+  [(S "$ACADVER", T 1 "AC1015"), (S "$ACMEVAR", T 70 "1"), (S "$CUSTOMPROPERTYTAG", T 1 "K"), (S "$CUSTOMPROPERTY", T 1 "v"),
+   (S "$HANDSEED", T 5 "FF"), (S "$DWGCODEPAGE", T 3 "ANSI_1252"), (S "$FINGERPRINTGUID", T 2 "{x}"),
+   (S "$LTSCALE", T 1 "2.5"), (S "$ORTHOMODE", T 1 "bad")]
 
 def exHeaderOut2000 : List (V × V) :=
-  [(S "$ACADVER", S "AC1015"), (S "$DWGCODEPAGE", S "ANSI_1252"), (S "$HANDSEED", S "FF"), (S "$FINGERPRINTGUID", S "{x}")]
+  [(S "$ACADVER", S "AC1015"), (S "$DWGCODEPAGE", S "ANSI_1252"), (S "$LTSCALE", S "2.5"), (S "$HANDSEED", S "FF"),
+   (S "$FINGERPRINTGUID", S "{x}")]
 def exHeaderOut2010 : List (V × V) :=
-  [(S "$ACADVER", S "AC1024"), (S "$DWGCODEPAGE", S "ANSI_1252"), (S "$HANDSEED", S "FF"), (S "$FINGERPRINTGUID", S "{x}"),
-   (S "$CUSTOMPROPERTYTAG", S "K"), (S "$CUSTOMPROPERTY", S "v")]
+  [(S "$ACADVER", S "AC1024"), (S "$DWGCODEPAGE", S "ANSI_1252"), (S "$LTSCALE", S "2.5"), (S "$HANDSEED", S "FF"),
+   (S "$FINGERPRINTGUID", S "{x}"), (S "$CUSTOMPROPERTYTAG", S "K"), (S "$CUSTOMPROPERTY", S "v")]
 
 /-- an XRECORD with a (100, …) tag inside its payload and XDATA -/
 def exXRecord : List Tag :=
